@@ -20,6 +20,7 @@ pub fn new_box(area: &str) -> Option<Box<dyn VerifBox>> {
         "c17" => Some(Box::new(
             crate::protocol::libp2p::kademlia::verif_c17::StoreBox::new(),
         )),
+        "c12" => Some(Box::new(crate::protocol::notification::verif_c12::ChanBox::new())),
         "c11" => Some(Box::new(crate::protocol::notification::verif_c11::NotifBox::new())),
         _ => None,
     }
@@ -27,7 +28,7 @@ pub fn new_box(area: &str) -> Option<Box<dyn VerifBox>> {
 
 /// Names of all adapters.
 pub fn areas() -> Vec<&'static str> {
-    vec!["c17", "c11"]
+    vec!["c17", "c11", "c12"]
 }
 
 /// Decode a hex string.
